@@ -184,9 +184,12 @@ def run_property(prop: str, tier: str, seed: int, repo: str) -> dict[str, Any]:
             continue
         if res.get("engine_error") or res["out_of_subset"]:
             continue
+        tried = 0
         for ob in res["obligations"]:
-            if ob["status"] != "failed" or not ob["input_only"] or not ob["model"] or ob["kind"] == "unwind":
+            # (a model that also fixes results of callees under contract is still worth trying: the replay decides)
+            if ob["status"] != "failed" or not ob["model"] or ob["kind"] == "unwind" or tried >= 6:
                 continue
+            tried += 1
             rep = native_replay(repo, cname, ob["model"])
             if rep.get("status") != "reproduced":
                 continue
